@@ -15,7 +15,7 @@ CLAIMS = {
  'C03': ('proof', 'Ghost enter/exit monitor in every user callback: alternation, delivery only to entered states, parent-before-child, exit-after-children, exactly-once counts for enter()/exit()/reset()/load(); every callback of a state is delivered to the object access<State>() returns; entered == active is part of the inductive invariant. ' + SAMPLE, L1, '4.3 / C03'),
  'C04': ('proof', 'Per-step monitor: no state is exited or entered before its own guard was consulted; a vetoed round leaves active and resumable sub-states unchanged and runs no lifecycle callback; an approved round survives the veto of a later round of the same step; substitute requests go through a round of their own; at most SUBSTITUTION_LIMIT rounds; backup/restore/!= proved over symbolic registries. One known finding (the last substitute stays queued at the limit). ' + SAMPLE,
          L1 + 'in substitution jobs only the keyed guard vetoes in round 1 (DESIGN L2); guard order within a round is not checked.', '4.3 / C04'),
- 'C05': ('proof', 'The recorded delivery sequence of update()/react()/query() is proved to be exactly: per phase, the active states in the documented order (head-first / sub-states-first), cut right after the consuming state, for a symbolic consumer and phase; query() changes nothing. ' + SAMPLE, L1 + 'top-down order on the sample machines, bottom-up order on the Config option-chain variants of the resumable machine; injected StateT<> handlers are not modelled.', '4.3 / C05'),
+ 'C05': ('proof', 'The recorded delivery sequence of update()/react()/query() is proved to be exactly: per phase, the active states in the documented order (head-first / sub-states-first), cut right after the consuming state, for a symbolic consumer and phase; query() changes nothing. ' + SAMPLE, L1 + 'top-down order on the sample machines, bottom-up order on the Config option-chain variants of the resumable machine; injected StateT<> handlers on an injection variant of the resumable machine (one injected handler per state).', '4.3 / C05'),
  'C06': ('proof', 'Plan step on a plan-owning region: executed-task set, removal, destination, on-behalf-of-head origin, planSucceeded/planFailed notifications and mark clearing proved per (configuration, plan shape, acting state, succeed/fail). Known finding: tasks are always executed as CHANGE transitions. Plan machine: 6 states, 8 plan shapes.',
          L1 + 'one plan-owning region (8 plan shapes) plus one nested pair of plan-owning regions; succeed/fail decisions are case keys.', '4.3 / C06'),
  'C07': ('proof', 'PlanT append/remove/iterate/remove-while-iterating/clearTasks and PlanDataT::clear proved from an ARBITRARY plan store satisfying wf_plans (disjoint acyclic per-region lists with ghost owner/position, lengths add up) => every interleaving; at and around capacity.', 'Task capacities 1-3 quick (4, 6 thorough), 3 regions, payload void/int.', '4.2 / C07'),
